@@ -340,7 +340,7 @@ def text_of(rnd, ai, value):
         return s
     if isinstance(value, datetime.date):
         s = value.strftime('%y%m%d')
-        if rnd.random() < 0.2 and (value + datetime.timedelta(days=1)).day == 1:
+        if rnd.random() < 0.2 and value < datetime.date.max and (value + datetime.timedelta(days=1)).day == 1:
             s = s[:4] + '00'
         return s
     return None
